@@ -42,6 +42,7 @@ type ref struct {
 }
 
 type output struct {
+	ProtoMeta  *protoMeta  `json:"proto_meta,omitempty"`
 	Declared   []constDecl `json:"declared"`
 	ValidKeys  []string    `json:"valid_keys"`
 	ValidLower bool        `json:"valid_type_lowercases"`
@@ -62,6 +63,7 @@ func main() {
 	repo := flag.String("repo", "/repo", "repository root")
 	out := flag.String("out", "", "output .v file")
 	jsonOut := flag.String("json", "", "output JSON file")
+	protoOut := flag.String("protoout", "", "output .v file for the setProtoMetadata dispatch table")
 	flag.Parse()
 
 	fset := token.NewFileSet()
@@ -270,6 +272,11 @@ func main() {
 		writeIfChanged(*out, sb.String())
 	} else {
 		fmt.Print(sb.String())
+	}
+	if *protoOut != "" {
+		pm := genProtoMeta(*repo)
+		o.ProtoMeta = &pm
+		writeIfChanged(*protoOut, protoMetaCoq(pm))
 	}
 	if *jsonOut != "" {
 		b, _ := json.MarshalIndent(o, "", " ")
